@@ -58,6 +58,10 @@ struct Shared {
     /// the last poll woke its own task and returned Pending
     woke_pending: std::sync::atomic::AtomicBool,
     cancelled: std::sync::atomic::AtomicBool,
+    /// the future's destructor started while a poll of it was in progress
+    dropped_in_poll: std::sync::atomic::AtomicBool,
+    /// the future returned Ready (an output exists)
+    out_made: std::sync::atomic::AtomicUsize,
 }
 
 impl Shared {
@@ -109,6 +113,10 @@ struct ScriptFut {
 }
 impl Drop for ScriptFut {
     fn drop(&mut self) {
+        if self.sh.in_poll.load(Ordering::SeqCst) {
+            // (a future that cancels its own task from inside `poll` is not dropped before that poll returns)
+            self.sh.dropped_in_poll.store(true, Ordering::SeqCst);
+        }
         self.sh.fut_drops.fetch_add(1, Ordering::SeqCst);
         let acts = self.sh.fdrop.lock().unwrap().clone();
         for c in acts.chars() {
@@ -135,11 +143,17 @@ impl Future for ScriptFut {
             match c {
                 'c' => self.sh.wakers.lock().unwrap().push(cx.waker().clone()),
                 'w' => cx.waker().wake_by_ref(),
+                'z' => {
+                    for _ in 0..2000 {
+                        std::hint::spin_loop();
+                    }
+                }
                 c => self.sh.act(c),
             }
         }
         self.sh.woke_pending.store(item.contains('w') && !item.contains('r'), Ordering::SeqCst);
         if item.contains('r') {
+            self.sh.out_made.fetch_add(1, Ordering::SeqCst);
             Poll::Ready(Out(self.sh.clone()))
         } else {
             Poll::Pending
@@ -186,6 +200,8 @@ impl Engine for TaskEngine {
                 out.push(Case { lines });
             }
         }
+        // a task cancelled by one thread while another thread wakes and runs it
+        out.push(Case { lines: vec!["case task forget".to_string(), "script p".to_string(), format!("racecancel {}", if tier == Tier::Quick { 4000 } else { 100000 }), "run".into(), "dropt".into(), "dropr".into()] });
         for kind in ["spawn", "forget"] {
             for sc in scripts {
                 for len in 1..=maxlen {
@@ -354,6 +370,85 @@ impl Engine for TaskEngine {
                         None => "no-waker".into(),
                     }
                 }
+                ["racecancel", n] => {
+                    // `n` rounds, each on a fresh idle task: one thread cancels the task while another wakes it and runs the
+                    // Runnable it gets; whatever the interleaving the future is dropped exactly once and never while (or
+                    // after) it is polled by the other thread
+                    let n: usize = n.parse().unwrap();
+                    let mut bad: Option<String> = None;
+                    for r in 0..n {
+                        let rsh = Arc::new(Shared::default());
+                        *rsh.script.lock().unwrap() = vec!["cp".to_string(), "zp".to_string(), "zp".to_string()];
+                        let rtag = {
+                            let mut g = REGISTRY.lock().unwrap();
+                            g.push(Some(rsh.clone()));
+                            g.len() - 1
+                        };
+                        let fut = ScriptFut { sh: rsh.clone(), _pad: [0; TASK_PAD] };
+                        let (run0, tok) = vtask_spawn_and_forget(fut, schedule, rtag);
+                        run0.run(); // first poll: stores a waker, Pending, the task is idle
+                        let wk = rsh.wakers.lock().unwrap().pop();
+                        let go = std::sync::atomic::AtomicUsize::new(0);
+                        std::thread::scope(|sc| {
+                            let (go1, go2) = (&go, &go);
+                            let rsh2 = rsh.clone();
+                            sc.spawn(move || {
+                                while go1.load(Ordering::Acquire) == 0 {
+                                    std::hint::spin_loop();
+                                }
+                                for _ in 0..(r % 24) {
+                                    std::hint::spin_loop();
+                                }
+                                tok.cancel();
+                            });
+                            sc.spawn(move || {
+                                while go2.load(Ordering::Acquire) == 0 {
+                                    std::hint::spin_loop();
+                                }
+                                for _ in 0..((r / 24) % 24) {
+                                    std::hint::spin_loop();
+                                }
+                                if let Some(w) = wk {
+                                    w.wake_by_ref();
+                                    loop {
+                                        let rn = rsh2.queue.lock().unwrap().pop();
+                                        match rn {
+                                            Some(rn) => rn.run(),
+                                            None => break,
+                                        }
+                                    }
+                                    drop(w);
+                                }
+                            });
+                            go.store(1, Ordering::Release);
+                        });
+                        // whatever is still queued is released
+                        let rest: Vec<VRunnable> = rsh.queue.lock().unwrap().drain(..).collect();
+                        drop(rest);
+                        rsh.wakers.lock().unwrap().clear();
+                        REGISTRY.lock().unwrap()[rtag] = None;
+                        let fd = rsh.fut_drops.load(Ordering::SeqCst);
+                        if rsh.dropped_in_poll.load(Ordering::SeqCst) {
+                            bad = Some(format!("round {r}: the future was destroyed by the cancelling thread while the other thread was polling it"));
+                        } else if rsh.scheduled_during_poll.load(Ordering::SeqCst) {
+                            bad = Some(format!("round {r}: the future was polled by two threads at once"));
+                        } else if fd != 1 {
+                            bad = Some(format!("round {r}: every handle is gone and the future was dropped {fd} time(s)"));
+                        }
+                        if bad.is_some() {
+                            break;
+                        }
+                    }
+                    wakes += 1;
+                    match bad {
+                        Some(b) => {
+                            out.monitor.push(("C05".into(), format!("a task cancelled by one thread while another wakes and runs it: {b}")));
+                            out.monitor.push(("C13".into(), format!("a task cancelled by one thread while another wakes and runs it: {b}")));
+                            format!("racecancel failed: {b}")
+                        }
+                        None => "racecancel ok".into(),
+                    }
+                }
                 ["racewake", k, n] => {
                     // `k` threads wake the idle task through the same stored waker at (as nearly as possible) the same
                     // moment, `n` rounds with a swept skew; after each round exactly one Runnable must exist; it is
@@ -503,6 +598,10 @@ impl Engine for TaskEngine {
             }
             if od > 1 {
                 out.monitor.push(("C13".into(), format!("the output was released {od} times")));
+            }
+            let made = sh.out_made.load(Ordering::SeqCst);
+            if made == 1 && od == 0 {
+                out.monitor.push(("C13".into(), "the task completed and all its handles are gone, but its output was never released (leaked)".into()));
             }
             if al != 1 || fr != 1 {
                 out.monitor.push(("C13".into(), format!("all handles released: {al} task allocation(s), {fr} deallocation(s)")));
